@@ -2,6 +2,8 @@
 
     ParquetFile.head       total_rows / i prefix-sum loop and the slice `self[:i+1]`
     ParquetFile.to_pandas  the row-group loop that hands `views[start:start+thislen]` to the reader and advances `start`
+    ParquetFile.iter_row_groups   `i = self.row_groups.index(rg); df = self[i].to_pandas(...); if not df.empty: yield df`
+                           (into the vocabulary of Dataset/Read.v: index_of, getitem_pick, to_pandas, frame_empty)
 
 Python `ast` -> Gallina text (Gen/GenHead.v, Gen/GenToPandas.v, logical root PqGen).  The theorems over the generated
 text are in coq/genproofs/GenReadProofs.v and are re-proved on every run.
@@ -384,6 +386,145 @@ def translate_to_pandas(tree, src_lines, path):
     return "\n".join(out) + "\n"
 
 
+# ------------------------------------------------------------------------------------------------------------------
+# iter_row_groups: statements over handles and frames, translated into the vocabulary of Dataset/Read.v
+
+class IterTr:
+    """`for rg in rgs:` body of ParquetFile.iter_row_groups (default path: filters falsy, so rgs = self.row_groups).
+    Values: nat index (from `self.row_groups.index(rg)` or an integer literal), frame (from `self[IDX].to_pandas(filters=filters,
+    **kwargs)`), booleans over frames (`df.empty`, `len(df)`, `len(df.index)`, `len(df.columns)` compared with literals, not/and/or)."""
+
+    def __init__(self, rgvar):
+        self.rgvar = rgvar
+        self.kind = {}          # local name -> 'index' | 'frame'
+
+    def index_expr(self, e):
+        """-> Gallina term of type res Z (Python int used as subscript)"""
+        if isinstance(e, ast.Constant) and isinstance(e.value, int) and not isinstance(e.value, bool):
+            return "(Ok (%d)%%Z)" % e.value
+        if (isinstance(e, ast.Call) and isinstance(e.func, ast.Attribute) and e.func.attr == "index" and len(e.args) == 1 and not e.keywords
+                and isinstance(e.func.value, ast.Attribute) and e.func.value.attr == "row_groups"
+                and isinstance(e.func.value.value, ast.Name) and e.func.value.value.id == "self"
+                and isinstance(e.args[0], ast.Name) and e.args[0].id == self.rgvar):
+            return "(match index_of deqb rg (h_rgs h) with Some i_ => Ok (Z.of_nat i_) | None => Fail ValueError end)"
+        _fail(e, "unsupported row-group index expression")
+
+    def frame_expr(self, e):
+        """self[NAME].to_pandas(filters=filters, **kwargs) -> Gallina term of type res frame"""
+        ok = (isinstance(e, ast.Call) and isinstance(e.func, ast.Attribute) and e.func.attr == "to_pandas" and not e.args)
+        if ok:
+            kws = e.keywords
+            named = {k.arg: k.value for k in kws if k.arg is not None}
+            star = [k for k in kws if k.arg is None]
+            ok = (len(star) == 1 and isinstance(star[0].value, ast.Name) and star[0].value.id == "kwargs"
+                  and set(named) <= {"filters"} and all(isinstance(v, ast.Name) and v.id == "filters" for v in named.values()))
+        sub = e.func.value if ok else None
+        ok = ok and isinstance(sub, ast.Subscript) and isinstance(sub.value, ast.Name) and sub.value.id == "self" \
+            and isinstance(sub.slice, ast.Name) and self.kind.get(sub.slice.id) == "index"
+        if not ok:
+            _fail(e, "unsupported frame expression (expected self[i].to_pandas(filters=filters, **kwargs))")
+        return "(bind (getitem_pick h %s) (fun h_ => to_pandas neqb rows nrows h_ o))" % sub.slice.id
+
+    def nat_expr(self, e):
+        if isinstance(e, ast.Constant) and isinstance(e.value, int) and not isinstance(e.value, bool) and e.value >= 0:
+            return "%d" % e.value
+        if isinstance(e, ast.Call) and isinstance(e.func, ast.Name) and e.func.id == "len" and len(e.args) == 1:
+            a = e.args[0]
+            if isinstance(a, ast.Name) and self.kind.get(a.id) == "frame":
+                return "(length (f_rows %s))" % a.id
+            if isinstance(a, ast.Attribute) and isinstance(a.value, ast.Name) and self.kind.get(a.value.id) == "frame":
+                if a.attr == "index":
+                    return "(length (f_rows %s))" % a.value.id
+                if a.attr == "columns":
+                    return "(length (f_cols %s))" % a.value.id
+        _fail(e, "unsupported size expression")
+
+    def bool_expr(self, t):
+        if isinstance(t, ast.UnaryOp) and isinstance(t.op, ast.Not):
+            return "(negb %s)" % self.bool_expr(t.operand)
+        if isinstance(t, ast.BoolOp):
+            op = "andb" if isinstance(t.op, ast.And) else "orb"
+            out = self.bool_expr(t.values[0])
+            for v in t.values[1:]:
+                out = "(%s %s %s)" % (op, out, self.bool_expr(v))
+            return out
+        if isinstance(t, ast.Attribute) and t.attr == "empty" and isinstance(t.value, ast.Name) and self.kind.get(t.value.id) == "frame":
+            return "(frame_empty %s)" % t.value.id
+        if isinstance(t, ast.Compare) and len(t.ops) == 1:
+            a, b = self.nat_expr(t.left), self.nat_expr(t.comparators[0])
+            op = t.ops[0]
+            if isinstance(op, ast.Gt):
+                return "(Nat.ltb %s %s)" % (b, a)
+            if isinstance(op, ast.GtE):
+                return "(Nat.leb %s %s)" % (b, a)
+            if isinstance(op, ast.Lt):
+                return "(Nat.ltb %s %s)" % (a, b)
+            if isinstance(op, ast.LtE):
+                return "(Nat.leb %s %s)" % (a, b)
+            if isinstance(op, ast.Eq):
+                return "(Nat.eqb %s %s)" % (a, b)
+            if isinstance(op, ast.NotEq):
+                return "(negb (Nat.eqb %s %s))" % (a, b)
+        _fail(t, "unsupported condition over a frame")
+
+    def body(self, stmts):
+        """-> Gallina term of type res (list frame): the frames this iteration yields followed by `tl_` (the rest)"""
+        if not stmts:
+            return "iter_loop h o rest"
+        s, rest = stmts[0], stmts[1:]
+        if isinstance(s, ast.Assign) and len(s.targets) == 1 and isinstance(s.targets[0], ast.Name):
+            name = s.targets[0].id
+            if name in ("h", "o", "rg", "rest", "deqb", "neqb", "rows", "nrows"):
+                _fail(s, "local name clashes with the generated text")
+            try:
+                ev = self.index_expr(s.value)
+                self.kind[name] = "index"
+            except TranslatorError:
+                ev = self.frame_expr(s.value)
+                self.kind[name] = "frame"
+            return "bind %s (fun %s =>\n%s)" % (ev, name, self.body(rest))
+        if isinstance(s, ast.If) and not s.orelse and len(s.body) == 1 and isinstance(s.body[0], ast.Expr) \
+                and isinstance(s.body[0].value, ast.Yield) and isinstance(s.body[0].value.value, ast.Name) \
+                and self.kind.get(s.body[0].value.value.id) == "frame":
+            return "bind (%s) (fun tl_ => Ok (if %s then %s :: tl_ else tl_))" % (self.body(rest), self.bool_expr(s.test), s.body[0].value.value.id)
+        if isinstance(s, ast.Expr) and isinstance(s.value, ast.Yield) and isinstance(s.value.value, ast.Name) \
+                and self.kind.get(s.value.value.id) == "frame":
+            return "bind (%s) (fun tl_ => Ok (%s :: tl_))" % (self.body(rest), s.value.value.id)
+        _fail(s, "unsupported statement in iter_row_groups")
+
+
+def translate_iter(tree, src_lines, path):
+    fn = find_method(tree, "ParquetFile", "iter_row_groups")
+    body = _strip_doc(fn.body)
+    if len(body) != 2:
+        _fail(fn, "iter_row_groups is not `rgs = ...; for rg in rgs: ...`")
+    a, loop = body
+    ok = (isinstance(a, ast.Assign) and isinstance(a.targets[0], ast.Name) and a.targets[0].id == "rgs" and isinstance(a.value, ast.IfExp)
+          and isinstance(a.value.test, ast.Name) and a.value.test.id == "filters"
+          and isinstance(a.value.orelse, ast.Attribute) and a.value.orelse.attr == "row_groups"
+          and isinstance(a.value.orelse.value, ast.Name) and a.value.orelse.value.id == "self")
+    ok = ok and isinstance(loop, ast.For) and not loop.orelse and isinstance(loop.target, ast.Name) \
+        and isinstance(loop.iter, ast.Name) and loop.iter.id == "rgs"
+    if not ok:
+        _fail(fn, "iter_row_groups is not `rgs = ... if filters else self.row_groups; for rg in rgs: ...`")
+    tr = IterTr(loop.target.id)
+    code = tr.body(loop.body)
+    src = "\n".join(src_lines[fn.lineno - 1:fn.end_lineno])
+    out = [HEADER % (path, "ParquetFile.iter_row_groups (default path: no filters)", hashlib.sha256(src.encode()).hexdigest()[:16],
+                     "\n".join("   " + l for l in src_lines[a.lineno - 1:loop.end_lineno]).replace("(*", "( *").replace("*)", "* )"))]
+    out.append("From Pq Require Import Dataset.Read.\nClose Scope Z_scope.\n")
+    out.append("Section GenIter.\nVariables D R Name : Type.\nVariable deqb : D -> D -> bool.\nVariable neqb : Name -> Name -> bool.\n"
+               "Variable rows : D -> list R.\nVariable nrows : D -> nat.\n")
+    out.append("(* one generator step per row group of the handle; the result lists the frames yielded *)")
+    out.append("Fixpoint iter_loop (h : handle D Name) (o : ropts Name) (rgs : list D) {struct rgs} : res (list (frame R Name)) :=")
+    out.append("  match rgs with\n  | [] => Ok []\n  | rg :: rest =>")
+    out.append(textwrap.indent(code, "    "))
+    out.append("  end.\n")
+    out.append("Definition gen_iter (h : handle D Name) (o : ropts Name) : res (list (frame R Name)) := iter_loop h o (h_rgs h).")
+    out.append("End GenIter.")
+    return "\n".join(out) + "\n"
+
+
 def run(repo, gen_dir):
     """-> dict(status per unit); writes GenHead.v / GenToPandas.v into gen_dir"""
     path = os.path.join(repo, "fastparquet", "api.py")
@@ -391,7 +532,7 @@ def run(repo, gen_dir):
     tree = ast.parse(src)
     lines = src.split("\n")
     res = {}
-    for name, fn in (("GenHead", translate_head), ("GenToPandas", translate_to_pandas)):
+    for name, fn in (("GenHead", translate_head), ("GenToPandas", translate_to_pandas), ("GenIter", translate_iter)):
         out = os.path.join(gen_dir, name + ".v")
         if os.path.exists(out):
             os.unlink(out)
